@@ -33,6 +33,10 @@ CLAIMED = {
    technique="TLA+ refinement BitstrStore.tla (buffers, reference counts, borrowed flag, bit ranges) => Bits.tla (plain sequences) checked by TLC over all reachable layouts; every explored transition replayed on xeh::bitstr::Bitstr; seeded long histories validated by TLC (Trace_Bits)",
    text="TLC explores every layout reachable within the bounds (3 handles, 3 buffers, history depth 3-4, byte patterns with both kinds of stale bit) and checks that each implementation-shaped operation (detach with its unique-owner case, append fast and slow path, insert, invert, views) yields exactly the plain-sequence result and leaves the operands unchanged. Each of the explored transitions is one test on the real Bitstr: the pre-state layout (exact bytes, ownership, borrowed flag, ranges) is rebuilt through the public API, the operation applied and every live handle compared (bits, iter8, len, hex, bytes, ==). Seeded 30-operation histories on 8 handles are validated by a trace specification that conjoins each event with the abstract operator. A regression configuration shows the pinned append design is still rejected.",
    note="Exhaustive inside the stated constants only; positions of seek/substr are taken relative to start(); derived views are compared with reference functions of the predicted bits."),
+ "C05": dict(cat="model_checking", design="5/C05",
+   technique="TLA+ codec laws (Bits.tla Encode/Decode as byte-order permutations of MSB-first bit patterns) checked by TLC for every width/order/pattern; replay at all bit offsets on the real crate; random values judged by TLC (Trace_Codec)",
+   text="TLC checks on the specification, for every width 1..128, both byte orders and a per-width pattern family (plus all values at small widths), that decoding inverts encoding, that big-endian is the MSB-first pattern, that byte-multiple little-endian is the byte reversal and that the short group travels last. Every case is replayed through Bitstr::from_int/to_uint/to_int/from_f*/to_f* at all 8 bit offsets with both stale-bit fillings and through the language words; random 128-bit values are packed/unpacked by the real crate and each event is judged by TLC evaluating the codec.",
+   note="Numbers are bit patterns in the specification (no big integers); float NaN payloads through the language-level f32 path are not judged bit-exactly."),
 }
 
 PENDING_REASON = "check not built yet in this build session (planned, DESIGN.md section 12); no claim is made for it"
